@@ -601,7 +601,7 @@ def rule_E(ck, units, only=None, floor=3):
                 done.add((f.file, f.line))
 
 
-def rule_F(ck, units, floor=2):
+def rule_F(ck, units, floor=2, only=None):
     """a local std::shared_ptr declared without initialiser is null; if it is assigned only on some paths, every dereference must lie on
     those paths.  The analysis is disjunctive in the boolean parameters / locals tested directly (`if (flag)`), so `if (get_app) p = ...;
     ... if (get_app) p->f();` is accepted and an unguarded `p->f()` is reported (the callers that pass get_app = false exist)."""
@@ -610,7 +610,7 @@ def rule_F(ck, units, floor=2):
     done = set()
     for u in units.values():
         for f in u.funcs:
-            if f.cfg is None or (f.file, f.line) in done or not f.rel().startswith('amgcl/'):
+            if f.cfg is None or (f.file, f.line) in done or not f.rel().startswith('amgcl/') or (only is not None and not only(f)):
                 continue
             ptrs = {}
             for n in f.nodes.values():
